@@ -4,6 +4,10 @@ namespace Interp
 
 inductive Ty where
   | unit | bool | int | nat | mutez | timestamp | string | bytes | address | chainId
+  /-- `never` (no values), `key_hash` and `key` (opaque base58 text, like `address`) -/
+  | never | keyHash | key
+  /-- `contract t` (a handle on an entrypoint of type `t`) and `operation` -/
+  | contract (t : Ty) | operation
   | option (t : Ty)
   | or (l r : Ty)
   | pair (l r : Ty)
@@ -22,7 +26,7 @@ mutual
     /-- strings are ASCII (pytezos asserts it): list of character codes -/
     | str (s : List Nat)
     | bytes (b : List Nat)
-    /-- `address` / `chain_id`: opaque base58 text -/
+    /-- `address` / `chain_id` / `key_hash` / `key`: opaque base58 text -/
     | atom (t : Ty) (s : List Nat)
     | pair (a b : Val)
     | some (v : Val)
@@ -35,6 +39,12 @@ mutual
     /-- elements in ascending order -/
     | set (t : Ty) (xs : List Val)
     | lam (a b : Ty) (body : Instr)
+    /-- `contract t`: the address text, followed by `%entrypoint` unless the entrypoint is `default` -/
+    | contract (t : Ty) (s : List Nat)
+    /-- internal operations (`OperationType.content`): a transaction to `dest` / `ep` with parameter `param : pty`, … -/
+    | opTransfer (source dest ep : List Nat) (amount : Int) (param : Val) (pty : Ty)
+    | opDelegate (source : List Nat) (delegate : Option (List Nat))
+    | opEmit (source tag : List Nat) (ty : Ty) (payload : Val)
   inductive Instr where
     | seq (is : List Instr)
     | DROP | DROPN (n : Nat) | DUP | DUPN (n : Nat) | SWAP | DIG (n : Nat) | DUG (n : Nat)
@@ -54,6 +64,16 @@ mutual
     | AMOUNT | BALANCE | SENDER | SOURCE | NOW | LEVEL | CHAIN_ID | SELF_ADDRESS | TOTAL_VOTING_POWER | MIN_BLOCK_TIME
     | BLAKE2B | SHA256 | SHA512 | KECCAK | SHA3
     | CAST (t : Ty) | RENAME
+    /- extension 2, phase A: `never`, the int / nat ↔ bytes conversions (`INT` also takes `bytes`), voting power of a
+    delegate, hash of a public key -/
+    | NEVER | NAT | BYTES | VOTING_POWER | HASH_KEY
+    /- phase C: contracts and operations.  `CONTRACT %ep t`; `SELF %ep` carries the type `t` of that entrypoint of the
+    running contract's parameter (what type checking against the parameter gives — the elaborated instruction);
+    `EMIT %tag t` -/
+    | ADDRESS | IMPLICIT_ACCOUNT | CONTRACT (t : Ty) (ep : List Nat) | SELF (ep : List Nat) (t : Ty)
+    | TRANSFER_TOKENS | SET_DELEGATE | EMIT (tag : List Nat) (t : Ty)
+    /- phase B (first half): serialization of the plain data classes -/
+    | PACK
 end
 
 instance : Inhabited Val := ⟨.unit⟩
@@ -68,8 +88,11 @@ structure Hashes where
   sha512 : List Nat → List Nat
   keccak : List Nat → List Nat
   sha3 : List Nat → List Nat
+  /-- HASH_KEY: base58 text of a public key ↦ base58 text of its hash (`Key.from_encoded_key(k).public_key_hash()`:
+  Base58Check decoding, BLAKE2b with a 20-byte digest, Base58Check encoding under the prefix of the curve) -/
+  hashKey : List Nat → List Nat := fun _ => []
 
-instance : Inhabited Hashes := ⟨⟨fun _ => [], fun _ => [], fun _ => [], fun _ => [], fun _ => []⟩⟩
+instance : Inhabited Hashes := ⟨⟨fun _ => [], fun _ => [], fun _ => [], fun _ => [], fun _ => [], fun _ => []⟩⟩
 
 /-- execution environment (`ExecutionContext` getters) -/
 structure Env where
@@ -84,6 +107,8 @@ structure Env where
   /-- `context.get_total_voting_power()` / `context.get_min_block_time()` -/
   totalVotingPower : Int := 0
   minBlockTime : Int := 1
+  /-- `context.get_voting_power(key_hash)`: voting power of every delegate (by the base58 text of its key hash) -/
+  votingPower : List Nat → Int := fun _ => 0
   hashes : Hashes := default
   deriving Inhabited
 
@@ -166,5 +191,25 @@ def typeOf : Val → Ty
   | .map k v _ => .map k v
   | .set t _ => .set t
   | .lam a b _ => .lambda a b
+  | .contract t _ => .contract t
+  | .opTransfer .. | .opDelegate .. | .opEmit .. => .operation
+
+/-! Address texts: `KT1…` / `tz1…`, optionally followed by `%entrypoint` (37 = `%`); no entrypoint means `default`. -/
+def defaultEp : List Nat := [100, 101, 102, 97, 117, 108, 116]      -- "default"
+
+/-- the address part of an address text (up to the first `%`) -/
+def addrOf (s : List Nat) : List Nat := s.takeWhile (· != 37)
+
+/-- the entrypoint an address text names (`default` when there is none) -/
+def epOf (s : List Nat) : List Nat :=
+  match s.dropWhile (· != 37) with
+  | [] => defaultEp
+  | _ :: e => if e = [] then defaultEp else e
+
+/-- the text of address `a` with entrypoint `e` (`%default` is not written) -/
+def mkAddr (a e : List Nat) : List Nat := if e = defaultEp then a else a ++ 37 :: e
+
+/-- an implicit account: the address text starts with `tz` -/
+def isImplicit (a : List Nat) : Bool := a.take 2 == [116, 122]
 
 end Interp
